@@ -122,8 +122,8 @@ func (ctx *BrokerContext) Broker() {
 				verifhook.Point("broker.proxy-timeout.before-lock", snowflake.id)
 				// This snowflake is no longer available to serve clients.
 				ctx.snowflakeLock.Lock()
-				defer ctx.snowflakeLock.Unlock()
-				if snowflake.index != -1 {
+				taken := snowflake.index == -1
+				if !taken {
 					if request.natType == NATUnrestricted {
 						heap.Remove(ctx.snowflakes, snowflake.index)
 					} else {
@@ -132,6 +132,14 @@ func (ctx *BrokerContext) Broker() {
 					ctx.metrics.promMetrics.AvailableProxies.With(prometheus.Labels{"nat": request.natType, "type": request.proxyType}).Dec()
 					delete(ctx.idToSnowflake, snowflake.id)
 					close(request.offerChannel)
+				}
+				ctx.snowflakeLock.Unlock()
+				if taken {
+					// A client took this snowflake off the heap just as
+					// the timeout fired and is about to send its offer:
+					// pass it on, otherwise the client and the proxy
+					// would both wait forever.
+					request.offerChannel <- <-snowflake.offerChannel
 				}
 			}
 		}(request)
